@@ -413,6 +413,36 @@ impl Sim {
     }
 }
 
+/// Harness payloads (topic, seq) found in a WAL file, as JSON `[[topic, seq], ...]`.
+/// Independent of the engine's own parser: every position is tried as a payload start.
+fn scan_entries(path: &str) -> String {
+    let mut found: Vec<(u32, u64)> = Vec::new();
+    if let Ok(meta) = std::fs::metadata(path) {
+        if meta.len() <= 64 * 1024 * 1024 {
+            if let Ok(bytes) = std::fs::read(path) {
+                let magic = crate::plan::MAGIC.to_le_bytes();
+                let mut i = 0usize;
+                while i + crate::plan::HDR <= bytes.len() {
+                    if bytes[i..i + 4] == magic {
+                        let len = u32::from_le_bytes(bytes[i + 16..i + 20].try_into().unwrap()) as usize;
+                        if len >= crate::plan::HDR && i + len <= bytes.len() {
+                            if let Some((t, seq)) = crate::plan::parse_payload(&bytes[i..i + len]) {
+                                found.push((t, seq));
+                                i += len;
+                                continue;
+                            }
+                        }
+                    }
+                    i += 1;
+                }
+            }
+        } else {
+            return "\"too_large\"".into();
+        }
+    }
+    serde_json::to_string(&found).unwrap_or_default()
+}
+
 fn kind_name(k: IoKind) -> &'static str {
     match k {
         IoKind::CreateDir => "CreateDir",
@@ -593,12 +623,15 @@ impl Hooks for Sim {
         };
         let step = g.step;
         let cur_op = g.threads[me].cur_op;
+        // a file about to be deleted: record which harness entries it still holds (C12/C13)
+        let msg = if ev.kind == IoKind::Remove { Some(scan_entries(ev.path)) } else { None };
         self.log_ev(&Ev {
             t: "io".into(),
             step,
             th: me as u32,
             op: cur_op,
             io: Some(rec.clone()),
+            msg,
             ..Default::default()
         });
         if g.trace_io {
